@@ -295,6 +295,8 @@ def install(prog):
         v = D(a[0])
         if callee.startswith('<char as ToString>') or callee.startswith('<char as Into'):
             return char_to_str(ctx, v)
+        if callee.endswith('::to_string') and type(v) not in (str, SymStr, FmtV):
+            return b_generic_to_string(ctx, a, callee)
         if type(v) is int and ('From<char>' in callee or 'as From<char>' in callee):
             return chr(v)
         m = re.match(r'^<(.*) as (?:Into|From)<(.*)>>::(into|from)$', callee, re.S)
@@ -328,6 +330,15 @@ def install(prog):
             if out and out[0] == '.' and v.startswith('/'):
                 out = out[1:]
             return PathV(v.startswith('/'), out)
+        if type(v) is Agg and v.ty == 'Component':
+            if v.variant == 1:
+                return PathV(True, ())
+            if v.variant == 2:
+                return PathV(False, ('.',))
+            if v.variant == 3:
+                return PathV(False, ('..',))
+            if v.variant == 4:
+                return PathV(False, (v.fields[0],))
         raise Unsupported('path from %r' % (v,))
     prog.to_path = to_path
 
@@ -1162,9 +1173,11 @@ def install(prog):
             r = r.load()
         m = r.load()
         k = map_key(a[1])
+        # std: btree_map::Entry { Vacant, Occupied } but hash_map::Entry { Occupied, Vacant }
+        occ_idx = 1 if m.kind == 'BTreeMap' else 0
         if m.has(k):
-            return Agg('Entry', 0, (Agg('OccupiedEntry', None, (r, k)),))
-        return Agg('Entry', 1, (Agg('VacantEntry', None, (r, k)),))
+            return Agg('Entry', occ_idx, (Agg('OccupiedEntry', None, (r, k)),))
+        return Agg('Entry', 1 - occ_idx, (Agg('VacantEntry', None, (r, k)),))
 
     @B('re:^(std::collections::(btree_map|hash_map)::)?(Entry)::(or_insert|or_insert_with|or_default)$')
     def b_entry_or_insert(ctx, a, callee):
